@@ -32,6 +32,68 @@ MSG = {
 }
 
 INTERPOSED = ("line_search", "update_lbfgs_matrices", "make_X_and_G_respect_strong_wolfe")
+KERNELS = ("get_cauchy_point", "subspace_minimization")     # wrapped when present (kernel-level facts)
+
+
+def ref_cauchy(x, g, lb, ub, B):
+    """Reference generalized Cauchy point with the dense model (independent of the code under test):
+    first local minimiser of the model along the projected steepest-descent path."""
+    n = x.size
+    t = np.full(n, np.inf)
+    for i in range(n):
+        if g[i] < 0 and np.isfinite(ub[i]):
+            t[i] = (x[i] - ub[i]) / g[i]
+        elif g[i] > 0 and np.isfinite(lb[i]):
+            t[i] = (x[i] - lb[i]) / g[i]
+
+    def path(tt):
+        p = x - tt * g
+        for i in range(n):
+            if t[i] <= tt:
+                p[i] = ub[i] if g[i] < 0 else lb[i]
+        return p
+
+    bps = sorted(set(v for v in t if np.isfinite(v) and v > 0))
+    cur = 0.0
+    k = 0
+    while True:
+        d = np.where(t <= cur, 0.0, -g)
+        if not np.any(d):
+            return cur, path(cur)
+        z = path(cur) - x
+        f1 = float(g @ d + d @ (B @ z))
+        f2 = float(d @ (B @ d))
+        if f1 >= 0:
+            return cur, path(cur)
+        dtm = -f1 / f2 if f2 > 0 else np.inf
+        nxt = bps[k] if k < len(bps) else np.inf
+        if cur + dtm < nxt:
+            return cur + dtm, path(cur + dtm)
+        cur = nxt
+        k += 1
+
+
+def ref_subspace(x, xc, g, lb, ub, B):
+    """Reference box-truncated Newton point of the model on the variables free at xc."""
+    free = np.nonzero((xc != ub) & (xc != lb))[0]
+    if free.size == 0:
+        return xc.copy(), free, 1.0
+    r = (g + B @ (xc - x))[free]
+    dh = -np.linalg.solve(B[np.ix_(free, free)], r)
+    alpha = 1.0
+    for k, i in enumerate(free):
+        if dh[k] > 0 and np.isfinite(ub[i]):
+            alpha = min(alpha, (ub[i] - xc[i]) / dh[k])
+        elif dh[k] < 0 and np.isfinite(lb[i]):
+            alpha = min(alpha, (lb[i] - xc[i]) / dh[k])
+    xb = xc.copy()
+    xb[free] = xc[free] + alpha * dh
+    return xb, free, alpha
+
+
+def model_value(x, g, B, p):
+    z = p - x
+    return float(g @ z + 0.5 * z @ (B @ z))
 
 _patch_lock = threading.RLock()
 
@@ -228,6 +290,75 @@ class Observer:
                        _stencil=list(obs.stencil_pts))
                 return g
 
+            saved_k = {n: getattr(M, n) for n in KERNELS if hasattr(M, n)}
+
+            def get_cauchy_point(x, grad, lb, ub, mats, *a, **k):
+                from harness.memcheck import dense_from_mats
+                xi, gi = np.array(x, copy=True), np.array(grad, copy=True)
+                xcp, c = saved_k["get_cauchy_point"](x, grad, lb, ub, mats, *a, **k)
+                try:
+                    B = dense_from_mats(mats, xi.size)
+                    tref, xref = ref_cauchy(xi, gi, np.asarray(lb, float), np.asarray(ub, float), B)
+                    xc = np.asarray(xcp, float)
+                    step = 1.0 + float(np.max(np.abs(xref - xi)))
+                    # the segment recurrences of the code (f' += ...) lose digits when the gradient components
+                    # span many orders of magnitude; the comparison tolerance follows that conditioning and
+                    # badly scaled inputs (and vanishing steps, for c) are not judged on floats
+                    ga = np.abs(gi[gi != 0])
+                    ratio = float(ga.max() / ga.min()) if ga.size else 1.0
+                    tol = max(1e-6, 100.0 * np.finfo(float).eps * ratio ** 2)
+                    judged = bool(tol <= 1e-3 and np.all(np.isfinite(B)))
+                    tiny = bool(np.max(np.abs(xc - xi)) <= 1e-7 * (1.0 + float(np.max(np.abs(xi)))))
+                    mx = model_value(xi, gi, B, xc)
+                    t0 = (((gi < 0) & (xi == ub)) | ((gi > 0) & (xi == lb)) | (gi == 0))
+                    free = (xc != lb) & (xc != ub)
+                    cexp = mats.W.T @ (xc - xi) if mats.use_factor else np.zeros_like(np.asarray(c, float))
+                    obs.ev("Cauchy", feasible=bool(np.all(lb <= xc) and np.all(xc <= ub)),
+                           t0Unmoved=bool(np.array_equal(xc[t0], xi[t0])),
+                           modelNonInc=bool(mx <= 1e-9 * (1.0 + abs(mx))),
+                           matchesRef=bool((not judged) or np.max(np.abs(xc - xref)) <= tol * step),
+                           judged=judged,
+                           cOk=bool((not free.any()) or tiny or (not judged) or np.allclose(np.asarray(c, float), cexp, rtol=1e-6,
+                                                                    atol=1e-9 * (1.0 + float(np.max(np.abs(cexp))) if cexp.size else 0.0))),
+                           nfree=int(free.sum()), npairs=int(mats.W.shape[1] // 2 if mats.use_factor else 0),
+                           _x=xi, _g=gi, _xcp=xc.copy(), _xref=xref, _B=B)
+                except Exception as ex:  # noqa: BLE001 - the reference could not be computed (singular model)
+                    obs.ev("Cauchy", feasible=True, t0Unmoved=True, modelNonInc=True, matchesRef=True, cOk=True,
+                           judged=False, nfree=-1, npairs=-1, _skip=repr(ex))
+                return xcp, c
+
+            def subspace_minimization(x, xc, free_vars, Z, A, c, grad, lb, ub, mats, *a, **k):
+                from harness.memcheck import dense_from_mats
+                xi, xci, gi = np.array(x, copy=True), np.array(xc, copy=True), np.array(grad, copy=True)
+                xbar = saved_k["subspace_minimization"](x, xc, free_vars, Z, A, c, grad, lb, ub, mats, *a, **k)
+                try:
+                    B = dense_from_mats(mats, xi.size)
+                    xb = np.asarray(xbar, float).ravel()
+                    xref, free, alpha = ref_subspace(xi, xci, gi, np.asarray(lb, float), np.asarray(ub, float), B)
+                    act = np.ones(xi.size, bool)
+                    act[free] = False
+                    step = 1.0 + float(np.max(np.abs(xref - xi)))
+                    # conditioning-aware tolerance: the reduced Newton system is solved through different
+                    # factorisations by the code (compact form) and by the reference (dense solve)
+                    cond = float(np.linalg.cond(B[np.ix_(free, free)])) if free.size else 1.0
+                    tol = max(1e-6, 1e3 * np.finfo(float).eps * cond)
+                    judged = bool(tol <= 1e-3 and np.all(np.isfinite(B)))
+                    mc, mb = model_value(xi, gi, B, xci), model_value(xi, gi, B, xb)
+                    obs.ev("Subspace", activeFixed=bool(np.array_equal(xb[act], xci[act])),
+                           feasibleTol=bool(np.all(xb >= lb - 1e-12 * (1 + np.abs(lb))) and np.all(xb <= ub + 1e-12 * (1 + np.abs(ub)))),
+                           modelNonInc=bool(mb <= mc + 1e-9 * (1.0 + abs(mc))),
+                           descent=bool(float(gi @ (xb - xi)) < 0),
+                           matchesRef=bool((not judged) or np.max(np.abs(xb - xref)) <= tol * step),
+                           judged=judged, nfree=int(free.size), _xbar=xb.copy(), _xref=xref)
+                except Exception as ex:  # noqa: BLE001
+                    obs.ev("Subspace", activeFixed=True, feasibleTol=True, modelNonInc=True, descent=True, matchesRef=True,
+                           judged=False, nfree=-1, _skip=repr(ex))
+                return xbar
+
+            if "get_cauchy_point" in saved_k:
+                M.get_cauchy_point = get_cauchy_point
+            if "subspace_minimization" in saved_k:
+                M.subspace_minimization = subspace_minimization
             M.line_search = line_search
             M.update_lbfgs_matrices = update_lbfgs_matrices
             M.make_X_and_G_respect_strong_wolfe = make_wolfe
@@ -235,7 +366,7 @@ class Observer:
             try:
                 yield
             finally:
-                for n, f in saved.items():
+                for n, f in list(saved.items()) + list(saved_k.items()):
                     setattr(M, n, f)
                 SFM.approx_derivative = saved_ad
 
